@@ -1,7 +1,136 @@
 #!/usr/bin/env python3
-"""other_obligations.py -- obligations that are not run by Kani or Verus (type-level facts
-discharged by rustc while the woven crate is built, source scans).  Filled in for C18."""
+"""other_obligations.py -- obligations that are not discharged by Kani or Verus.
+
+C18 (level `other`):
+  * c18_send_sync   -- type-level: `fn a<T: Send + Sync>() {}` instantiated at every public state type of
+                       the real crate; discharged by rustc's trait solver while checking a tiny client crate
+                       that depends on a copy of /repo's working tree (stable toolchain, no cfg).
+  * c18_no_interior_mutability -- source scan of /repo/src: no unsafe, static mut, Cell/RefCell/UnsafeCell/
+                       OnceCell, Mutex/RwLock, Atomic*, thread_local!, lazy_static; every pub fn of the state
+                       types takes self by shared reference or by value.
+"""
+import os
+import re
+import shutil
+import sys
+
+sys.path.insert(0, os.path.dirname(os.path.abspath(__file__)))
+
+TYPES = ['GameState', 'PieceBoardState', 'PieceBoard', 'PlayPhase', 'Phase', 'Action', 'Square', 'Piece', 'Direction',
+         'Zobrist', 'PushPullState', 'Terminal', 'List<Zobrist>', 'List<u64>']
+
+
+def _base(o):
+    r = dict(o)
+    r.pop('run', None)
+    r.update(failed=[], checks=0, covers=1, covers_sat=1, solver_s=None, wall_s=0, rss_mb=0, reason='', verdict='undecided')
+    return r
+
+
+def run_send_sync(run, o):
+    import runner
+    res = _base(o)
+    d = os.path.join(run.scratch, 'c18')
+    if os.path.exists(d):
+        shutil.rmtree(d)
+    os.makedirs(os.path.join(d, 'client', 'src'))
+    shutil.copytree(os.path.join(runner.REPO, 'src'), os.path.join(d, 'repo', 'src'))
+    shutil.copy(os.path.join(runner.REPO, 'Cargo.lock'), os.path.join(d, 'repo'))
+    toml = open(os.path.join(runner.REPO, 'Cargo.toml')).read()
+    toml = re.sub(r'\[dev-dependencies\].*?(?=^\[|\Z)', '', toml, flags=re.S | re.M)
+    toml = re.sub(r'\[\[bench\]\].*?(?=^\[|\Z)', '', toml, flags=re.S | re.M)
+    open(os.path.join(d, 'repo', 'Cargo.toml'), 'w').write(toml)
+    open(os.path.join(d, 'client', 'Cargo.toml'), 'w').write(
+        '[package]\nname = "c18_client"\nversion = "0.0.0"\nedition = "2021"\n\n[dependencies]\narimaa_engine_step = { path = "../repo" }\n')
+    shutil.copy(os.path.join(runner.REPO, 'Cargo.lock'), os.path.join(d, 'client', 'Cargo.lock'))
+    lines = ['use arimaa_engine_step::*;', 'fn shareable<T: Send + Sync>() {}', 'fn main() {']
+    for t in TYPES:
+        lines.append('    shareable::<%s>();' % t)
+    lines += ['    // a state can be handed to other threads and expanded there',
+              '    let s = std::sync::Arc::new(GameState::initial());',
+              '    let t = { let s = s.clone(); std::thread::spawn(move || s.valid_actions().len()) };',
+              '    let _ = (s.valid_actions().len(), t.join());', '}']
+    open(os.path.join(d, 'client', 'src', 'main.rs'), 'w').write('\n'.join(lines) + '\n')
+    # the client's lock file must know the client package: let cargo complete it offline
+    os.remove(os.path.join(d, 'client', 'Cargo.lock'))
+    rc, out, wall, rss, to = runner.run_cmd(['cargo', 'check', '--offline', '--quiet'], os.path.join(d, 'client'), 900)
+    logp = os.path.join(run.scratch, 'logs', o['name'] + '.log')
+    os.makedirs(os.path.dirname(logp), exist_ok=True)
+    open(logp, 'w').write(out)
+    res.update(wall_s=round(wall, 1), rss_mb=rss, log=logp, checks=len(TYPES))
+    if rc == 0 and not to:
+        res['verdict'] = 'discharged'
+    else:
+        errs = re.findall(r'error\[E0277\][^\n]*\n(?:[^\n]*\n){0,12}', out)
+        autotrait = [e for e in errs if re.search(r'cannot be (sent|shared) between threads safely', e)]
+        if autotrait:
+            res['verdict'] = 'failed'
+            res['failed'] = [dict(id='rustc', desc=re.sub(r'\s+', ' ', e)[:400], loc='c18 client crate') for e in autotrait[:3]]
+        else:
+            res['reason'] = 'client crate did not compile for another reason: ' + (re.search(r'error[^\n]*', out).group(0) if re.search(r'error[^\n]*', out) else out[-300:])
+    runner.log('[%-10s] %-44s %6.0fs %5d MB  %s' % (res['verdict'], o['name'], wall, rss, res['reason'] or '; '.join(f['desc'][:120] for f in res['failed'])))
+    return res
+
+
+FORBIDDEN = [r'\bunsafe\b', r'\bstatic\s+mut\b', r'\bCell\s*<', r'\bRefCell\b', r'\bUnsafeCell\b', r'\bOnceCell\b', r'\bOnceLock\b',
+             r'\bLazyLock\b', r'\bMutex\b', r'\bRwLock\b', r'\bAtomic[A-Z]\w*', r'thread_local!', r'lazy_static!', r'\bRc\b']
+
+
+def strip_comments_and_strings(s):
+    import weave
+    out = []
+    i = 0
+    n = len(s)
+    while i < n:
+        j = weave._skip_noncode(s, i)
+        if j is not None:
+            out.append(' ' * (j - i) if '\n' not in s[i:j] else re.sub(r'[^\n]', ' ', s[i:j]))
+            i = j
+        else:
+            out.append(s[i])
+            i += 1
+    return ''.join(out)
+
+
+def run_scan(run, o):
+    import runner
+    res = _base(o)
+    hits = []
+    nfiles = 0
+    for fn in sorted(os.listdir(os.path.join(runner.REPO, 'src'))):
+        if not fn.endswith('.rs') or fn in ('engine_tests.rs',):
+            continue
+        nfiles += 1
+        txt = strip_comments_and_strings(open(os.path.join(runner.REPO, 'src', fn)).read())
+        # drop #[cfg(test)] mod ... { } blocks
+        txt = re.sub(r'#\[cfg\(test\)\]\s*mod\s+\w+\s*\{.*\Z', '', txt, flags=re.S)
+        for pat in FORBIDDEN:
+            for m in re.finditer(pat, txt):
+                line = txt.count('\n', 0, m.start()) + 1
+                hits.append(dict(id='scan', desc='interior mutability / shared mutable state construct `%s`' % m.group(0), loc='src/%s:%d' % (fn, line)))
+        if fn in ('engine.rs', 'zobrist.rs', 'linked_list.rs', 'square.rs', 'action.rs'):
+            for m in re.finditer(r'pub\s+fn\s+(\w+)\s*(<[^>]*>)?\s*\(\s*&\s*mut\s+self', txt):
+                line = txt.count('\n', 0, m.start()) + 1
+                hits.append(dict(id='scan', desc='public method `%s` takes &mut self: a constructed state can be modified' % m.group(1), loc='src/%s:%d' % (fn, line)))
+    res['checks'] = nfiles * (len(FORBIDDEN) + 1)
+    if hits:
+        res['verdict'] = 'failed'
+        res['failed'] = hits[:10]
+    else:
+        res['verdict'] = 'discharged'
+    runner.log('[%-10s] %-44s %6.0fs %5d MB  %s' % (res['verdict'], o['name'], 0, 0, '; '.join(h['desc'] + ' @ ' + h['loc'] for h in hits[:3])))
+    return res
 
 
 def load():
-    return []
+    common = dict(props=['C18'], tier='quick', mem_gb=1, timeout_s=900, est_s=20, bounded=None, expect='pass', known=None,
+                  uses=[], profile=None, file=None)
+    return [
+        dict(common, backend='rustc', name='c18_send_sync', kind='type-level', run=run_send_sync,
+             fns=TYPES, clause='every public state type of the real crate is Send + Sync (rustc trait solver on the real type '
+                                'definitions; replacing Arc by Rc in the history list makes this obligation fail); a state inside an '
+                                'Arc can be moved to and expanded on another thread'),
+        dict(common, backend='scan', name='c18_no_interior_mutability', kind='scan', run=run_scan,
+             fns=['src/*.rs'], clause='no unsafe, static mut, Cell/RefCell/UnsafeCell/Once*, Mutex/RwLock, Atomic*, thread_local!, '
+                                      'lazy_static!, Rc in /repo/src (outside test modules); no public method of the state types takes &mut self'),
+    ]
